@@ -319,3 +319,20 @@ def commit(conn, ctx, **kw):
             ctx.probe("abandoned:known-C04-inline-duplicate")
         raise Precondition("known C04 finding: " + conn.hazards[0][0])
     return r
+
+
+def sweep(conn, op, ctx):
+    """["sweep", "minimize" | "some" | "incrgc", mask]: the evict-between
+    fault; -> number of nodes that really became ghosts"""
+    if op[1] == "some":
+        nodes = conn.nodes()
+        pick = set(o._p_oid for j, o in enumerate(nodes)
+                   if (op[2] >> (j % 16)) & 1)
+        n = conn.sweep("deactivate", pick)
+    elif op[1] == "incrgc":
+        n = conn.sweep("incrgc", 1 + op[2] % 4)
+    else:
+        n = conn.sweep("minimize")
+    if n and ctx is not None:
+        ctx.fault("evict-between", n)
+    return n
